@@ -1,7 +1,9 @@
 (** C29 — correspondence cases: one crash point of one delivery history.
 
     The case carries the block tree, the delivery order, the durable writes the
-    crashed process had completed (classified by the harness into facts), and
+    crashed process had completed (classified by the harness into facts; ONE
+    unit per write the database wrapper saw, so a connect or disconnect that
+    reaches the database in two writes cannot equal the model's one unit), and
     what the restarted node reported: right after start-up ([o1]), after the
     whole order was delivered again ([o2]); [ofull] is what the uninterrupted
     run of the same history reported at its end. *)
